@@ -160,6 +160,7 @@ fn gen_cases(r: &mut Rng, n: usize) -> Vec<Case> {
                 }
             }
             push(&mut out, json!(hex::encode(&bytes)), Type::Address, Some(ArgValue::Address(bytes.clone())), false, "address_hex");
+            push(&mut out, json!(format!("0x{}", hex::encode(&bytes))), Type::Address, Some(ArgValue::Address(bytes.clone())), false, "address_hex_prefixed");
         }
     }
     for v in [json!(5), Value::Null, json!("xyz"), json!(["a"])] {
